@@ -26,6 +26,11 @@ int main()
     for (uint64_t k = 0; k < HCAP; ++k) c.insert(k, k);
     uint64_t next = HCAP;
     bool     bad  = false;
+    // survival: number of consecutive evictions each resident key has lived through
+    uint64_t rk[HCAP];
+    long     surv[HCAP];
+    long     max_surv = 0;
+    for (int p = 0; p < HCAP; ++p) { rk[p] = (uint64_t)p; surv[p] = 0; }
     for (int i = 0; i < EV; ++i)
     {
         Abs pre, post;
@@ -37,16 +42,23 @@ int main()
             if (a_idx(post, pre.k[p]) == NPOS) { gone = p; ++ngone; }
         if (ngone != 1 || a_idx(post, next) == NPOS || post.n != HCAP) { printf("BAD-EVICTION at %d: %zu prior residents removed\n", i, ngone); bad = true; break; }
         cnt[gone]++;
+        for (int p = 0; p < HCAP; ++p)
+        {
+            if (rk[p] == pre.k[gone]) { rk[p] = next; surv[p] = 0; }
+            else { surv[p]++; if (surv[p] > max_surv) max_surv = surv[p]; }
+        }
         ++next;
     }
-    printf("victim position histogram over %d evictions at capacity %d:", EV, HCAP);
+    printf("victim open-list-position histogram over %d evictions at capacity %d:", EV, HCAP);
     for (int p = 0; p < HCAP; ++p) printf(" %ld", cnt[p]);
-    printf("\n");
+    printf("; longest run of evictions survived by one entry: %ld\n", max_surv);
     for (int p = 0; p < HCAP; ++p)
     {
         if (HCAP > 1 && cnt[p] == 0) { printf("IMMUNE position %d was never chosen\n", p); bad = true; }
         if (HCAP > 1 && cnt[p] == EV) { printf("FIXED position %d was always chosen\n", p); bad = true; }
     }
+    // with a uniform choice among HCAP <= 4 residents an entry survives 300 consecutive evictions with probability < 1e-37
+    if (HCAP > 1 && HCAP <= 4 && max_surv >= 300) { printf("IMMUNE an entry survived %ld consecutive evictions\n", max_surv); bad = true; }
     printf(bad ? "RR-SPREAD-FAIL\n" : "RR-SPREAD-OK\n");
     return bad ? 1 : 0;
 }
